@@ -147,6 +147,24 @@ def slot_fold(prog, f, alloc_answer=70000, nulls=(), detector=None, statics=None
     return events, getattr(ev, "ret", None), end, env
 
 
+def slot_targets(prog, slot):
+    """the functions the overload switches store in `slot`, read off folds of the switch functions (helpers that do the assignments,
+    taking the functions as parameters, are folded with them)"""
+    out = []
+    for qn in SWITCHES.values():
+        f = prog.fn(qn)
+        ev = Evaluator(prog, f, env={s_: ("fn", "marker_" + s_) for s_ in slot_vars(prog)})
+        ev.inline = set(SWITCHES.values()) - {f.qn}
+        try:
+            ev.run_blocks(f.entry, max_steps=2000)
+        except Unknown:
+            continue
+        v = ev.env.get(slot)
+        if isinstance(v, tuple) and v[0] == "fn":
+            out += [g for g in prog.functions.values() if g.qn == v[1]]
+    return sorted(set(out), key=lambda g: g.qn)
+
+
 def slot_switch_rules(prog, run, rid):
     """WHO/SIBLING over the switch functions (shared by C10.R1 and C04.R8). Returns (slots, saved slots, stored map)."""
     slots = [s for s in slot_vars(prog) if not s.startswith("saved_")]
